@@ -354,6 +354,137 @@ fn exec_op(ctx: &Arc<Ctx>, who: &str, op: &Op) {
     }
 }
 
+/// What a relation computes, independent of how many renaming maps carry it: multiset of join
+/// operators, set operators, limits / offsets, sort directions, aggregate kinds, scalar functions
+/// and literal values over all nodes. Re-parsing rendered SQL adds projection maps (only column
+/// references) but must preserve this multiset.
+fn semantic_tokens(root: &Relation) -> BTreeMap<String, usize> {
+    fn expr_tokens(e: &qrlew::expr::Expr, out: &mut BTreeMap<String, usize>) {
+        use qrlew::expr::function::Function as F;
+        use qrlew::expr::Expr;
+        // `a / b` is built as case(b >= eps or b <= -eps, a / b, 0), and every re-parse of the
+        // rendered text wraps the division once more: count a division, however guarded, once
+        fn is_guard(e: &Expr) -> Option<Expr> {
+            let Expr::Function(f) = e else { return None };
+            let args = f.arguments();
+            if !matches!(f.function(), F::Case) || args.len() != 3 {
+                return None;
+            }
+            let num = |e: &Expr| -> Option<f64> {
+                match e {
+                    Expr::Value(v) => v.to_string().parse::<f64>().ok(),
+                    _ => None,
+                }
+            };
+            let tiny = |e: &Expr| -> bool {
+                let x = match e {
+                    Expr::Function(o) if matches!(o.function(), F::Opposite) => num(&o.arguments()[0]),
+                    other => num(other),
+                };
+                x.map_or(false, |x| x != 0.0 && x.abs() < 1e-300)
+            };
+            let side = |e: &Expr, ge: bool| -> bool {
+                match e {
+                    Expr::Function(g) => {
+                        let ga = g.arguments();
+                        (if ge { matches!(g.function(), F::GtEq) } else { matches!(g.function(), F::LtEq) }) && ga.len() == 2 && tiny(&ga[1])
+                    }
+                    _ => false,
+                }
+            };
+            let cond = match &args[0] {
+                Expr::Function(c) if matches!(c.function(), F::Or) => {
+                    let ca = c.arguments();
+                    ca.len() == 2 && side(&ca[0], true) && side(&ca[1], false)
+                }
+                _ => false,
+            };
+            if num(&args[2]) == Some(0.0) && cond {
+                Some(args[1].clone())
+            } else {
+                None
+            }
+        }
+        let mut inner = e.clone();
+        while let Some(x) = is_guard(&inner) {
+            inner = x;
+        }
+        let e = if matches!(&inner, Expr::Function(f) if matches!(f.function(), F::Divide)) { &inner } else { e };
+        match e {
+            Expr::Column(_) => {}
+            Expr::Value(v) => {
+                *out.entry(format!("lit:{}", v)).or_default() += 1;
+            }
+            Expr::Function(f) => {
+                let name = match f.function() {
+                    qrlew::expr::function::Function::Random(_) => "Random".to_string(),
+                    other => format!("{:?}", other),
+                };
+                *out.entry(format!("fn:{}", name)).or_default() += 1;
+                for a in f.arguments().iter() {
+                    expr_tokens(a, out);
+                }
+            }
+            Expr::Aggregate(a) => {
+                *out.entry(format!("agg:{:?}", a.aggregate())).or_default() += 1;
+                expr_tokens(a.argument(), out);
+            }
+            Expr::Struct(_) => {}
+        }
+    }
+    let mut out = BTreeMap::new();
+    let mut seen: Vec<&Relation> = vec![];
+    let mut stack = vec![root];
+    while let Some(r) = stack.pop() {
+        if seen.iter().any(|s| s.name() == r.name() && *s == r) {
+            continue;
+        }
+        seen.push(r);
+        match r {
+            Relation::Table(t) => {
+                *out.entry(format!("table:{}", t.path())).or_default() += 1;
+            }
+            Relation::Map(m) => {
+                for (_, e) in m.field_exprs() {
+                    expr_tokens(e, &mut out);
+                }
+                if let Some(f) = m.filter() {
+                    expr_tokens(f, &mut out);
+                }
+                for o in m.order_by() {
+                    *out.entry(format!("order:{}", if o.asc { "asc" } else { "desc" })).or_default() += 1;
+                    expr_tokens(&o.expr, &mut out);
+                }
+                if let Some(l) = m.limit() {
+                    *out.entry(format!("limit:{}", l)).or_default() += 1;
+                }
+                if let Some(o) = m.offset() {
+                    *out.entry(format!("offset:{}", o)).or_default() += 1;
+                }
+            }
+            Relation::Reduce(red) => {
+                for (_, a) in red.field_aggregates() {
+                    *out.entry(format!("agg:{:?}", a.aggregate())).or_default() += 1;
+                }
+                *out.entry(format!("group_by:{}", red.group_by().len())).or_default() += 1;
+            }
+            Relation::Join(j) => {
+                *out.entry(format!("join:{}", j.operator())).or_default() += 1;
+            }
+            Relation::Set(st) => {
+                *out.entry(format!("set:{:?}:{:?}", st.operator(), st.quantifier())).or_default() += 1;
+            }
+            Relation::Values(_) => {
+                *out.entry("values".into()).or_default() += 1;
+            }
+        }
+        for i in r.inputs() {
+            stack.push(i);
+        }
+    }
+    out
+}
+
 #[allow(clippy::too_many_arguments)]
 fn reparse_check(ctx: &Ctx, who: &str, qi: usize, r: &Relation, text: &str, c2: &Compiled, r2: &Option<Relation>, semantic: bool) {
     let q = &ctx.wl.queries[qi];
@@ -379,6 +510,33 @@ fn reparse_check(ctx: &Ctx, who: &str, qi: usize, r: &Relation, text: &str, c2: 
             json!({"query": q, "schema": s1, "reparsed_schema": s2}),
         );
         return;
+    }
+    if semantic {
+        // structure: the re-parsed relation is made of the same operators, functions and literals
+        let (t1, t2) = (semantic_tokens(r), semantic_tokens(r2));
+        // tolerated: LIMIT is rendered at two levels (idempotent), so only its presence counts
+        let same = t1.keys().chain(t2.keys()).all(|k| {
+            let (a, b) = (*t1.get(k).unwrap_or(&0), *t2.get(k).unwrap_or(&0));
+            if k.starts_with("limit:") {
+                (a > 0) == (b > 0)
+            } else {
+                a == b
+            }
+        });
+        if !same {
+            let diff: Vec<String> = t1.keys().chain(t2.keys()).filter(|k| t1.get(*k) != t2.get(*k)).map(|k| format!("{} {}->{}", k, t1.get(k).unwrap_or(&0), t2.get(k).unwrap_or(&0))).collect::<std::collections::BTreeSet<_>>().into_iter().take(14).collect();
+            probe(ctx, "structure_differs_after_reparse");
+            violation(
+                ctx,
+                "reparse_structure",
+                "unclassified",
+                format!("{}: re-parsing the SQL rendered for `{}` gives a relation that computes something else (operators / literals / functions that differ: {:?})", who, q, diff),
+                json!({"query": q, "rendered": text.chars().take(400).collect::<String>(), "differs": diff}),
+            );
+            return;
+        } else {
+            probe(ctx, "structure_same_after_reparse");
+        }
     }
     if semantic && !ctx.refs[qi].has_random {
         let lq = q.to_lowercase();
